@@ -174,6 +174,12 @@ func firstTok(a any) Token {
 				return n.First
 			}
 		}
+	case []any:
+		for _, x := range v {
+			if t := firstTok(x); t.Seq != 0 {
+				return t
+			}
+		}
 	}
 	return Token{}
 }
@@ -202,6 +208,12 @@ func Describe(a any) Arg {
 		}
 		return Arg{K: "l", L: l}
 	case []*Node:
+		l := make([]Arg, len(v))
+		for i, n := range v {
+			l[i] = Describe(n)
+		}
+		return Arg{K: "l", L: l}
+	case []any:
 		l := make([]Arg, len(v))
 		for i, n := range v {
 			l[i] = Describe(n)
